@@ -222,3 +222,101 @@ def ordering_tests(body, cmp_rx, negeq_rx=None, universe=UNIVERSE4):
             (succ if ee == "advance" else fail if ee == "backtrack" else other).update(eset)
             sites.append(dict(kind="if", call=call, succ=succ, fail=fail, other=other))
     return sites
+
+
+# ---- operand-order preservation in (lhs, rhs) pair matches ------------------------------------------
+
+NONCOMM_BINOPS = {"Div", "Rem", "Sub", "Shl", "Shr"}
+NONCOMM_METHODS = {"checked_div", "checked_rem", "checked_sub", "rem_floor", "div_floor", "checked_shl", "checked_shr",
+                   "checked_pow", "powf", "powi", "atan2", "pow", "div_rem", "div_euclid", "rem_euclid", "wrapping_sub",
+                   "wrapping_shl", "wrapping_shr", "overflowing_sub", "log"}
+NONCOMM_FUNCS = re.compile(r"(arithmetic::div_f|ibig_rem_floor|arithmetic::binary_pow|checked_signed_shl|arithmetic_ops::float_pow|"
+                           r"arithmetic_ops::(idiv|modulus|remainder|shl|shr|int_pow|pow|sub|rdiv|int_floor_div|div))$")
+
+
+def _locals(e):
+    return {res_name(n) for n in walk(e) if n["k"] == "Path" and "local" in (n.get("res") or {})}
+
+
+def _bound(p):
+    return {n["name"] for n in walk(p) if n["k"] == "PBind"}
+
+
+def operand_order_sites(fn_hir):
+    """For every arm of a match over a pair built from the function's first two value parameters,
+    yield (arm, node, origin_of_first_operand, origin_of_second_operand, description) for each
+    non-commutative binary operation in the arm. Origins are subsets of {'L','R'}: which side of
+    the pair the operand is computed from (following let-bindings inside the arm)."""
+    params = [p.get("name") for p in fn_hir["params"] if p["k"] == "PBind"]
+    out = []
+    for m in matches_in(fn_hir["body"], src=None):
+        s = m["scrut"]
+        if s["k"] != "Tup" or len(s["elems"]) != 2:
+            continue
+        e0, e1 = s["elems"]
+        n0 = res_name(e0) if e0["k"] == "Path" else None
+        n1 = res_name(e1) if e1["k"] == "Path" else None
+        if n0 not in params or n1 not in params or n0 == n1:
+            continue
+        flip = params.index(n0) > params.index(n1)
+        for arm in m["arms"]:
+            for leaf in pat_leaves(arm["pat"]):
+                if leaf["k"] != "PTuple" or len(leaf["pats"]) != 2:
+                    continue
+                lb, rb = _bound(leaf["pats"][0]), _bound(leaf["pats"][1])
+                if flip:
+                    lb, rb = rb, lb
+                origin = {}
+                for x in lb:
+                    origin[x] = {"L"}
+                for x in rb:
+                    origin.setdefault(x, set()).add("R")
+
+                def org(e):
+                    o = set()
+                    for v in _locals(e):
+                        o |= origin.get(v, set())
+                    return o
+
+                # let-bindings in source order
+                for n in walk(arm["body"]):
+                    if n["k"] == "Let" and "init" in n:
+                        o = org(n["init"])
+                        for b in _bound(n["pat"]):
+                            origin[b] = set(o)
+                for n in walk(arm["body"]):
+                    a = b = None
+                    desc = None
+                    if n["k"] == "Binary" and n["op"] in NONCOMM_BINOPS:
+                        a, b, desc = n["a"], n["b"], "operator " + n["op"]
+                    elif n["k"] == "MethodCall" and n["name"] in NONCOMM_METHODS and n["args"]:
+                        a, b, desc = n["recv"], n["args"][0], "method " + n["name"]
+                    elif n["k"] == "Call" and NONCOMM_FUNCS.search(n.get("resolved") or n.get("callee") or "") and len(n["args"]) >= 2:
+                        a, b, desc = n["args"][0], n["args"][1], "call " + (n.get("resolved") or n.get("callee")).rsplit("::", 1)[-1]
+                    if a is None:
+                        continue
+                    out.append((arm, n, org(a), org(b), desc))
+    return out
+
+
+def operand_order_obligations(F, fn, R, prefix):
+    """RF1: in every (lhs, rhs) arm the first operand of a non-commutative operation comes from the
+    left value and the second from the right value. Returns the number of sites examined."""
+    h = F.hir(fn)
+    cnt = 0
+    seen = {}
+    for arm, n, oa, ob, desc in operand_order_sites(h):
+        if not oa or not ob or oa == ob:
+            continue  # constants / same-side helper computations carry no order information
+        cnt += 1
+        ok = oa == {"L"} and ob == {"R"}
+        key = "%s:%s@%d" % (prefix, desc.split()[-1], n["ln"] - F.items[fn]["line"])
+        i = seen.get(key, 0)
+        seen[key] = i + 1
+        if i:
+            key += "#%d" % i
+        R.ob(key, ok,
+             "%s takes its first operand from the %s value and its second from the %s value of the matched pair"
+             % (desc, "/".join(sorted(oa)), "/".join(sorted(ob))) + ("" if ok else " — operands are swapped or mixed in this representation pair"),
+             "%s (line %s)" % (F.where(fn), n["ln"]))
+    return cnt
